@@ -12,7 +12,7 @@ use crate::{
     config::GcConfig,
     error::Result,
     metadata::GcStats,
-    streaming::{get_int, get_pointers},
+    streaming::{get_int, get_pointers, WRITER_PREFIX},
 };
 
 /// Background garbage collector for orphaned chunks.
@@ -114,8 +114,17 @@ impl GarbageCollector {
     /// Returns an error if chunk deletion fails.
     #[allow(clippy::unused_async)]
     pub async fn full_gc(&self) -> Result<GcStats> {
-        // 1. Build reference set from all artifacts
+        // 1. Build reference set from unfinished writers, then from all artifacts
+        //    (a writer drops its record only after its artifact record exists)
         let mut referenced: HashSet<String> = HashSet::new();
+
+        for writer_key in self.store.scan(WRITER_PREFIX) {
+            if let Ok(tensor) = self.store.get(&writer_key) {
+                if let Some(chunks) = get_pointers(&tensor, "_chunks") {
+                    referenced.extend(chunks);
+                }
+            }
+        }
 
         for meta_key in self.store.scan("_blob:meta:") {
             if let Ok(tensor) = self.store.get(&meta_key) {
